@@ -303,7 +303,8 @@ def build_and_run(cfg, modules, repo, scratch_root, keep_src=None):
         dep = 'derive-where = { path = "%s"%s }' % (repo, (', features = ["%s"]' % feats) if feats else '')
         deps = dep + ('\nzeroize = "1"' if CFGS[cfg]['zeroize'] else '')
         open(os.path.join(scratch, 'Cargo.toml'), 'w').write('[package]\nname = "probe"\nversion = "0.0.0"\nedition = "2021"\n[workspace]\n[dependencies]\n%s\n[profile.dev]\ndebug = 0\n' % deps)
-        shutil.copy(os.path.join(repo, 'Cargo.lock'), os.path.join(scratch, 'Cargo.lock'))
+        import runner as _r
+        shutil.copy(_r.lockfile(), os.path.join(scratch, 'Cargo.lock'))
         src = PRELUDE + (ZPRELUDE if CFGS[cfg]['zeroize'] else '') + '\n'.join(m for _, m in modules) + \
             '\nfn main() {\nlet skip: Vec<usize> = std::env::args().skip(1).filter_map(|a| a.parse().ok()).collect();\n' + \
             '\n'.join('if !skip.contains(&%d) { m%d::run(); }' % (i, i) for i, _ in modules) + '\nprintln!("DONE");\n}\n'
